@@ -578,12 +578,37 @@ def gen_dca(rng, tier, cs):
                ('dca', prox, n, f.coq, g.coq, gamma, N, tuple(x0)) if N > 0 else None)
 
 
+def gen_apg(rng, tier, cs):
+    from odl.solvers.nonsmooth.proximal_gradient_solvers import accelerated_proximal_gradient
+    for k in range(12 if tier == 'quick' else 100):
+        n = rng.randint(1, 4)
+        f, g = _fk(rng, n, 'prox'), _fk(rng, n, 'grad')
+        gamma = _dy(rng)
+        x0 = _vec(rng, n)
+        N = min(_niter(rng, tier, k), 12)
+        sp_ = _rn(n)
+        t1, c1 = _rec()
+        x = sp_.element(x0)
+        accelerated_proximal_gradient(x, f.build(sp_), g.build(sp_), gamma, N, callback=c1)
+        # the scalar recursion of the source, replayed: alpha_k = (t_old - 1) / t
+        alphas, t = [], 1
+        for _ in range(N):
+            t, t_old = (1 + np.sqrt(1 + 4 * t ** 2)) / 2, t
+            alphas.append(float((t_old - 1) / t))
+        cs.add('{| kv_f := %s; kv_g := %s; kv_gamma := %s; kv_alpha := %s; kv_x := %s; kv_n := %d; kv_tr := %s |}'
+               % (f.coq, g.coq, C.q(gamma), C.qs(alphas), C.qs(x0), N, C.qss(t1)),
+               {'solver': 'accelerated_proximal_gradient', 'f': f.desc, 'g': g.desc, 'gamma': gamma, 'x0': x0,
+                'niter': N},
+               ('apg', n, f.coq, g.coq, gamma, N, tuple(x0)) if N > 0 else None)
+
+
 GENS = [('fk', 'check_fk', 'case_fk', gen_fk), ('admm', 'check_admm', 'case_admm', gen_admm),
         ('adupdates', 'check_adup', 'case_adup', gen_adup), ('doubleprox_dc', 'check_dpdc', 'case_dpdc', gen_dpdc),
         ('pdhg', 'check_pdhg', 'case_pdhg', gen_pdhg), ('landweber', 'check_lw', 'case_lw', gen_lw),
         ('kaczmarz', 'check_kz', 'case_kz', gen_kz), ('proximal_gradient', 'check_pg', 'case_pg', gen_pg),
         ('mlem', 'check_em', 'case_em', gen_em), ('steepest_descent', 'check_sd', 'case_sd', gen_sd),
-        ('douglas_rachford_pd', 'check_dr', 'case_dr', gen_dr), ('dca', 'check_dca', 'case_dca', gen_dca)]
+        ('douglas_rachford_pd', 'check_dr', 'case_dr', gen_dr), ('dca', 'check_dca', 'case_dca', gen_dca),
+        ('accelerated_proximal_gradient', 'check_apg', 'case_apg', gen_apg)]
 
 
 def correspondence(rng, tier):
